@@ -330,6 +330,11 @@ theorem loop_honest (c : Cfg) (code : Code) (H : Bytes → Bytes) (wf : WF c cod
     by_cases hav : (((readers.map (Option.map (readFrame H j))).map FrameRead.payload).filter Option.isSome).length < c.d
     · -- too few shards in this stripe: the stream fails
       simp only [hav, if_true]
+      -- (the intact reader shows a valid frame, so this is not the repaired "enough readers ended" end)
+      have hsome : ((readers.map (Option.map (readFrame H j))).map FrameRead.payload).any Option.isSome = true := by
+        rw [List.any_eq_true]
+        exact ⟨_, List.mem_map.2 ⟨_, hk0mem, rfl⟩, by rw [hk0f]; rfl⟩
+      simp only [hsome, Bool.not_true, Bool.and_false, Bool.false_and, Bool.false_eq_true, if_false]
       exact ⟨(fun h => by cases h), (fun hd => by omega)⟩
     · simp only [hav, if_false]
       rw [dataOf_true c code H wf mds x _ htrue (by omega)]
@@ -363,6 +368,28 @@ theorem stripesOK_stripesOf (c : Cfg) (code : Code) (H : Bytes → Bytes) (wf : 
     StripesOK c (stripesOf c b) :=
   fun x hx => chunks_mem _ b (Nat.mul_pos wf.d_pos (by have := wf.stripe_ge; omega)) x hx
 
+/-- every intact shard opens: at least as many open readers as intact shards -/
+theorem open_ge_intact (c : Cfg) (code : Code) (H : Bytes → Bytes) (wf : WF c code H) (b : Bytes)
+    (streams : List (Option Bytes)) (hlen : streams.length = c.n) :
+    (List.range c.n).countP (shardIntact c code H b streams)
+      ≤ (((List.zip (List.range streams.length) streams).map fun (k, s) => openShard c k s).filter Option.isSome).length := by
+  have hrl : ((List.zip (List.range streams.length) streams).map fun (k, s) => openShard c k s).length = c.n := by
+    simp [hlen]
+  have hrD : ∀ k, k < c.n →
+      ((List.zip (List.range streams.length) streams).map fun (k, s) => openShard c k s).getD k none
+        = openShard c k (streams.getD k none) := by
+    intro k hk
+    have hk' : k < streams.length := hlen ▸ hk
+    simp [List.getD_eq_getElem?_getD, List.getElem?_map, List.getElem?_zip_eq_some, hk', List.getElem?_eq_getElem hk']
+  apply available_ge c.n _ hrl
+  intro k hk hq
+  simp only [shardIntact, decide_eq_true_eq] at hq
+  rw [hrD k hk, hq]
+  have := openShard_stream c code H wf k hk (framesFrom c code H k 0 (stripesOf c b))
+  unfold shardStream
+  rw [this]
+  rfl
+
 /-- **read_honest.** If no shard store lies about the part `b` and at least one holds its intact shard:
 the read either fails or returns exactly `b`; and it does not fail when at least `d` shards are intact. -/
 theorem read_honest (c : Cfg) (code : Code) (H : Bytes → Bytes) (wf : WF c code H) (mds : MDS c code) (fix : Fix)
@@ -380,7 +407,6 @@ theorem read_honest (c : Cfg) (code : Code) (H : Bytes → Bytes) (wf : WF c cod
     exact ⟨_, hmem0, by rw [hk0]; simp⟩
   unfold read
   simp only [hall, Bool.and_false, Bool.false_eq_true, if_false]
-  refine ⟨_, rfl, ?_⟩
   -- the readers
   have hrl : ((List.zip (List.range streams.length) streams).map fun (k, s) => openShard c k s).length = c.n := by
     simp [hlen]
@@ -412,6 +438,26 @@ theorem read_honest (c : Cfg) (code : Code) (H : Bytes → Bytes) (wf : WF c cod
           fun r => (r.map List.length).getD 0).sum / frameHeaderSize := by
       rw [Nat.le_div_iff_mul_le (by decide), Nat.mul_comm]; omega
     exact Nat.lt_of_le_of_lt this (Nat.lt_add_of_pos_right (by decide))
+  -- intact shards open
+  have hintactOpen : (List.range c.n).countP (shardIntact c code H b streams)
+      ≤ (((List.zip (List.range streams.length) streams).map fun (k, s) => openShard c k s).filter Option.isSome).length := by
+    apply available_ge c.n _ hrl
+    intro k hk hq
+    simp only [shardIntact, decide_eq_true_eq] at hq
+    rw [hrD k hk, hq]
+    have := openShard_stream c code H wf k hk (framesFrom c code H k 0 (stripesOf c b))
+    unfold shardStream
+    rw [this]
+    rfl
+  by_cases hg : (fix.failWhenTooFewOpen && decide ((((List.zip (List.range streams.length) streams).map
+      fun (k, s) => openShard c k s).filter Option.isSome).length < c.d)) = true
+  · -- repaired: fewer than `d` shards open, the read fails at once
+    simp only [hg, if_true]
+    refine ⟨_, rfl, (fun h => by cases h), fun hd => ?_⟩
+    simp only [Bool.and_eq_true, decide_eq_true_eq] at hg
+    exact absurd (Nat.le_trans hd hintactOpen) (Nat.not_le.2 hg.2)
+  simp only [hg, Bool.false_eq_true, if_false]
+  refine ⟨_, rfl, ?_⟩
   have main := loop_honest c code H wf mds fix
     (((List.zip (List.range streams.length) streams).map fun (k, s) => openShard c k s).map Option.isNone)
     (stripesOf c b) 0 _ _ [] ((List.range ((List.zip (List.range streams.length) streams).map fun (k, s) => openShard c k s).length).map
